@@ -187,7 +187,7 @@ fn shrink_leaves(case: &Case, sig: &str, ctx: &Ctx) -> Case {
     let mut paths = Vec::new();
     leaves(&v, String::new(), &mut paths);
     for p in paths {
-        if p.ends_with("/seed") || p.contains("/placement") || p.ends_with("/min_align") || p.ends_with("/uniform") {
+        if p.ends_with("/mask") || p.ends_with("/seed") || p.contains("/placement") || p.ends_with("/min_align") || p.ends_with("/uniform") {
             continue;
         }
         let orig = match v.pointer(&p) {
@@ -229,6 +229,10 @@ fn shrink_leaves(case: &Case, sig: &str, ctx: &Ctx) -> Case {
 pub fn minimize(case: &Case, sig: &str, ctx: &Ctx) -> Case {
     if !reproduces(case, sig, ctx) {
         return case.clone();
+    }
+    if let Case::W3(_) = case {
+        let cur = shrink_leaves(case, sig, ctx);
+        return cur;
     }
     if let Case::W2(_) = case {
         let cur = ddmin_w2(case, sig, ctx);
